@@ -1,6 +1,9 @@
 (* Theorems about the model of lox's semantic analysis (Gen/Analyze.v), C17.
 
    A2' analyze_accepts_iff   : analyze s = [] <-> well_formed_weak s = true
+       (well_formed_weak = well_formed minus the shape of parser rule names;
+        analyze_rejects_iff_modulo_rule_names: with valid rule names,
+        analyze s = [] <-> well_formed s = true)
    A1  analyze_sound_for_wf  : well_formed s = true -> analyze s = []
    and  expand_fuel_enough    : the fuel of the macro expansion never runs out.
    (A2 refutations and A4 examples: AnalyzeExamples.v; A3: AnalyzeBlame.v.)
@@ -410,13 +413,19 @@ Proof.
 Qed.
 
 (* ---- Check ------------------------------------------------------- *)
+Lemma ck_range_ok id it : ck_range id it = [] <-> (fst it <=? snd it)%Z = true.
+Proof.
+  unfold ck_range. rewrite Z.ltb_antisym.
+  destruct (fst it <=? snd it)%Z; simpl; split; intros; try discriminate; reflexivity.
+Qed.
+
 Lemma ck_atom_ok st id a :
-  ck_atom st id a = [] <-> atom_ref_ok st a && atom_lit_ok a = true.
+  ck_atom st id a = [] <-> atom_ref_ok st a && atom_lit_ok a && atom_ranges_ok a = true.
 Proof.
   destruct a as [cps|n|c|alts]; simpl.
   - destruct cps; simpl; split; intros; try discriminate; reflexivity.
   - destruct (lookup n (n_names st)) as [[]|]; simpl; split; intros; try discriminate; reflexivity.
-  - tauto.
+  - apply flat_map_forallb. apply ck_range_ok.
   - tauto.
 Qed.
 
@@ -429,58 +438,140 @@ Proof.
 Qed.
 
 Definition pterm_ok (st : nstate) (t : pterm) : bool :=
-  pterm_ref_ok st t && pterm_alias_ok false st t && pterm_lists_ok t.
+  pterm_ref_ok st t && pterm_alias_ok st t && pterm_lit_ok t && pterm_lists_ok t.
 
 Lemma ck_pterm_ok st id t : ck_pterm st id t = [] <-> pterm_ok st t = true.
 Proof.
   unfold pterm_ok. induction t as [n|lit| |k c IH|e IHe sp IHsp opt]; simpl.
   - destruct (lookup n (n_names st)) as [[]|]; simpl; split; intros; try discriminate; reflexivity.
-  - destruct (String.eqb lit ""); simpl; [tauto|].
+  - destruct (String.eqb lit ""); simpl; [split; intros; discriminate|].
     destruct (count_str lit (n_aliases st)) as [|[|c]]; simpl; split; intros; try discriminate; reflexivity.
   - tauto.
   - exact IH.
   - rewrite !app_nil_iff, IHe, IHsp.
-    destruct (pterm_ref_ok st e), (pterm_alias_ok false st e), (pterm_lists_ok e),
-      (pterm_ref_ok st sp), (pterm_alias_ok false st sp), (pterm_lists_ok sp),
+    destruct (pterm_ref_ok st e), (pterm_alias_ok st e), (pterm_lit_ok e), (pterm_lists_ok e),
+      (pterm_ref_ok st sp), (pterm_alias_ok st sp), (pterm_lit_ok sp), (pterm_lists_ok sp),
       (pterm_simple e), (pterm_simple sp); simpl;
       split; intros H; try reflexivity; try discriminate;
         try (intuition discriminate); repeat split; reflexivity.
 Qed.
 
+(* the cycle walk of the Check pass is the head of the full expansion *)
+Lemma acyclic_atoms_nil tbl fuel stk l :
+  flat_map (expand_atom tbl fuel stk) l = [] <-> acyclic_atoms tbl fuel stk l = true.
+Proof.
+  unfold acyclic_atoms. destruct (flat_map (expand_atom tbl fuel stk) l); split; intros; try discriminate; reflexivity.
+Qed.
+
+
+Lemma first_some_hd {A B : Type} (f : A -> option B) (g : A -> list B) (l : list A) :
+  (forall a, f a = hd_error (g a)) -> first_some f l = hd_error (flat_map g l).
+Proof.
+  intros H. induction l as [|a r IH]; simpl; [reflexivity|].
+  rewrite H. destruct (g a); simpl; [exact IH|reflexivity].
+Qed.
+
+Lemma cyc_atom_hd tbl : forall fuel stk a,
+  cyc_atom tbl fuel stk a = hd_error (expand_atom tbl fuel stk a).
+Proof.
+  induction fuel as [|f IH]; intros stk a; destruct a as [cps|n|c|alts]; simpl; try reflexivity;
+    destruct (lookup n tbl) as [[id|mid body|id|id|id]|]; try reflexivity;
+    destruct (mem_str n stk); try reflexivity.
+  apply first_some_hd. intros a. apply IH.
+Qed.
+
+Lemma macro_cycle_diag_hd tbl n e :
+  macro_cycle_diag tbl n e =
+  match flat_map (expand_atom tbl (List.length tbl) [n]) (lexpr_atoms e) with
+  | [] => [] | x :: _ => [x] end.
+Proof.
+  unfold macro_cycle_diag. rewrite (first_some_hd _ _ _ (cyc_atom_hd tbl (List.length tbl) [n])).
+  destruct (flat_map _ _); reflexivity.
+Qed.
+
+Lemma macro_cycle_diag_nil tbl n e :
+  macro_cycle_diag tbl n e = [] <->
+  acyclic_atoms tbl (List.length tbl) [n] (lexpr_atoms e) = true.
+Proof.
+  rewrite macro_cycle_diag_hd, <- acyclic_atoms_nil.
+  destruct (flat_map _ _); split; intros; try discriminate; reflexivity.
+Qed.
+
+Lemma macro_cycle_diag_In tbl n e x :
+  In x (macro_cycle_diag tbl n e) ->
+  In x (flat_map (expand_atom tbl (List.length tbl) [n]) (lexpr_atoms e)).
+Proof.
+  rewrite macro_cycle_diag_hd. destruct (flat_map _ _); simpl; [tauto|].
+  intros [H|[]]. left. exact H.
+Qed.
+
 Definition decl_check_ok (st : nstate) (d : decl) : bool :=
-  decl_refs_ok st d && decl_aliases_ok false st d && decl_modes_ok st d &&
-  forallb atom_lit_ok (decl_atoms d) && decl_lists_ok d.
+  decl_refs_ok st d && decl_aliases_ok st d && decl_modes_ok st d &&
+  decl_literals_ok d && forallb atom_ranges_ok (decl_atoms d) && decl_lists_ok d &&
+  macro_acyclic (n_names st) d.
+
+Lemma lexpr_part_ok st id e :
+  ck_lexpr st id e = [] <->
+  forallb (atom_ref_ok st) (lexpr_atoms e) && forallb atom_lit_ok (lexpr_atoms e) &&
+  forallb atom_ranges_ok (lexpr_atoms e) = true.
+Proof.
+  unfold ck_lexpr. rewrite (flat_map_forallb _ _ _ (ck_atom_ok st id)), !forallb_andb. tauto.
+Qed.
 
 Lemma lexer_part_ok st id e acts :
   ck_lexpr st id e ++ flat_map (ck_action st id) acts = [] <->
   (forallb (atom_ref_ok st) (lexpr_atoms e) && forallb (action_ref_ok st) acts) &&
-  forallb (action_mode_ok st) acts && forallb atom_lit_ok (lexpr_atoms e) = true.
+  forallb (action_mode_ok st) acts && forallb atom_lit_ok (lexpr_atoms e) &&
+  forallb atom_ranges_ok (lexpr_atoms e) = true.
 Proof.
-  unfold ck_lexpr. rewrite app_nil_iff.
-  rewrite (flat_map_forallb _ _ _ (ck_atom_ok st id)), (flat_map_forallb _ _ _ (ck_action_ok st id)).
-  rewrite !forallb_andb.
+  rewrite app_nil_iff, lexpr_part_ok.
+  rewrite (flat_map_forallb _ _ _ (ck_action_ok st id)), !forallb_andb.
   destruct (forallb (atom_ref_ok st) (lexpr_atoms e)), (forallb atom_lit_ok (lexpr_atoms e)),
+    (forallb atom_ranges_ok (lexpr_atoms e)),
     (forallb (action_ref_ok st) acts), (forallb (action_mode_ok st) acts); simpl;
     split; intros H; try reflexivity; try discriminate; try (destruct H; discriminate); auto.
 Qed.
 
-Lemma ck_decl_ok st d : ck_decl st d = [] <-> decl_check_ok st d = true.
+Lemma ck_decl_ok st d : ck_decl st false d = [] <-> decl_check_ok st d = true.
 Proof.
-  unfold decl_check_ok. destruct d as [id n e a|id e a|id n e|id ns|id n body|id b n pr]; simpl;
-    try tauto.
-  - unfold decl_atoms. simpl. rewrite !andb_true_r. apply lexer_part_ok.
-  - unfold decl_atoms. simpl. rewrite !andb_true_r. apply lexer_part_ok.
-  - unfold decl_atoms, ck_lexpr. simpl. rewrite !andb_true_r.
-    rewrite (flat_map_forallb _ _ _ (ck_atom_ok st id)), forallb_andb. tauto.
+  unfold decl_check_ok, decl_literals_ok.
+  destruct d as [id n e a|id e a|id n e|id ns|id n body|id b n pr]; simpl; try tauto.
+  - unfold decl_atoms. simpl. rewrite !andb_true_r. rewrite lexer_part_ok.
+    rewrite !andb_true_iff. tauto.
+  - unfold decl_atoms. simpl. rewrite !andb_true_r. rewrite lexer_part_ok.
+    rewrite !andb_true_iff. tauto.
+  - unfold decl_atoms. simpl. rewrite !andb_true_r. rewrite app_nil_iff. split.
+    + intros [H1 H2]. rewrite H1 in H2. simpl in H2.
+      apply lexpr_part_ok in H1. apply macro_cycle_diag_nil in H2.
+      rewrite !andb_true_iff in *. tauto.
+    + intros H. rewrite !andb_true_iff in H. destruct H as [[[H1 H2] H3] H4].
+      assert (X : ck_lexpr st id e = []).
+      { apply lexpr_part_ok. rewrite H1, H2, H3. reflexivity. }
+      split; [exact X|]. rewrite X. simpl. apply macro_cycle_diag_nil. exact H4.
   - unfold decl_atoms. simpl. rewrite !andb_true_r.
     rewrite (flat_map_forallb _ (forallb (pterm_ok st))).
-    + unfold pterm_ok. rewrite !forallb2_andb. tauto.
+    + unfold pterm_ok. rewrite !forallb2_andb, !andb_true_iff. tauto.
     + intros x. apply flat_map_forallb. apply ck_pterm_ok.
+Qed.
+
+Lemma ck_decls_nil st err ds :
+  ck_decls st err ds = [] <-> forall d, In d ds -> ck_decl st err d = [].
+Proof.
+  revert err. induction ds as [|d r IH]; intros err; simpl.
+  - split; [intros _ x []|reflexivity].
+  - rewrite app_nil_iff. split.
+    + intros [H1 H2]. rewrite H1 in H2. simpl in H2. rewrite orb_false_r in H2.
+      intros x [X|X]; [subst; exact H1|]. apply (proj1 (IH err) H2). exact X.
+    + intros H. assert (H1 := H d (or_introl eq_refl)). split; [exact H1|].
+      rewrite H1. simpl. rewrite orb_false_r. apply IH. intros x X. apply H. right. exact X.
 Qed.
 
 Lemma pass_check_ok st s :
   pass_check st s = [] <-> forallb (decl_check_ok st) (all_decls s) = true.
-Proof. unfold pass_check. apply flat_map_forallb. apply ck_decl_ok. Qed.
+Proof.
+  unfold pass_check. rewrite ck_decls_nil, forallb_forall.
+  split; intros H x Hx; apply ck_decl_ok, H, Hx.
+Qed.
 
 (* ---- GenerateGrammar --------------------------------------------- *)
 Lemma token_actions_ok id acts :
@@ -511,12 +602,6 @@ Qed.
 
 Definition decl_gen_ok (tbl : names) (d : decl) : bool :=
   rule_acyclic tbl d && decl_token_actions_ok d && decl_frag_actions_ok d.
-
-Lemma acyclic_atoms_nil tbl fuel stk l :
-  flat_map (expand_atom tbl fuel stk) l = [] <-> acyclic_atoms tbl fuel stk l = true.
-Proof.
-  unfold acyclic_atoms. destruct (flat_map (expand_atom tbl fuel stk) l); split; intros; try discriminate; reflexivity.
-Qed.
 
 Lemma gen_decl_ok st d : gen_decl st d = [] <-> decl_gen_ok (n_names st) d = true.
 Proof.
@@ -552,9 +637,10 @@ Qed.
 (* ---- assembling -------------------------------------------------- *)
 Lemma check_split st l :
   forallb (decl_check_ok st) l =
-  forallb (decl_refs_ok st) l && forallb (decl_aliases_ok false st) l &&
-  forallb (decl_modes_ok st) l && forallb (fun d => forallb atom_lit_ok (decl_atoms d)) l &&
-  forallb decl_lists_ok l.
+  forallb (decl_refs_ok st) l && forallb (decl_aliases_ok st) l &&
+  forallb (decl_modes_ok st) l && forallb decl_literals_ok l &&
+  forallb (fun d => forallb atom_ranges_ok (decl_atoms d)) l && forallb decl_lists_ok l &&
+  forallb (macro_acyclic (n_names st)) l.
 Proof. unfold decl_check_ok. rewrite !forallb_andb. reflexivity. Qed.
 
 Lemma gen_split tbl l :
@@ -572,52 +658,6 @@ Proof.
   rewrite (existsb_filter is_start). fold (count_start s).
   destruct (count_start s <=? 1), (existsb is_rule (all_decls s)), (1 <=? count_start s); simpl;
     split; intros H; try discriminate; try reflexivity; auto; destruct H; discriminate.
-Qed.
-
-Lemma weak_char s :
-  well_formed_weak s = true <->
-  (wf_lexical_names s = true /\ wf_unique s = true /\ (count_start s <=? 1) = true) /\
-  forallb (decl_check_ok (canon s)) (all_decls s) = true /\
-  forallb (decl_gen_ok (n_names (canon s))) (all_decls s) = true /\
-  n_rules (canon s) && negb (n_start (canon s)) = false.
-Proof.
-  rewrite check_split, gen_split. unfold well_formed_weak. rewrite !andb_true_iff, start_char.
-  unfold wf_refs, wf_aliases, wf_modes, wf_literals, wf_lists, wf_reachable_acyclic,
-    wf_token_actions, wf_frag_actions. tauto.
-Qed.
-
-(* A2' *)
-Theorem analyze_accepts_iff : forall s, analyze s = [] <-> well_formed_weak s = true.
-Proof.
-  intros s. rewrite weak_char. unfold analyze. destruct (pass_names s) as [st d1] eqn:E. split.
-  - intros H. destruct d1 as [|x d1]; [|discriminate].
-    apply pass_names_char in E. destruct E as [E1 [E2 [E3 E4]]]. subst st.
-    destruct (pass_check (canon s) s) eqn:E5; [|discriminate].
-    apply pass_check_ok in E5. apply pass_gen_ok in H. tauto.
-  - intros [[E1 [E2 E3]] [H1 H2]].
-    assert (E' : pass_names s = (canon s, [])) by (apply pass_names_char; tauto).
-    rewrite E' in E. inversion E; subst.
-    apply pass_check_ok in H1. rewrite H1. apply pass_gen_ok. exact H2.
-Qed.
-
-(* ---- well_formed implies well_formed_weak ------------------------ *)
-Lemma forallb_impl {A : Type} (p q : A -> bool) (l : list A) :
-  (forall x, In x l -> p x = true -> q x = true) -> forallb p l = true -> forallb q l = true.
-Proof.
-  rewrite !forallb_forall. intros H X x Hx. apply H; [assumption|]. apply X. assumption.
-Qed.
-
-Lemma alias_strict_weak st t : pterm_alias_ok true st t = true -> pterm_alias_ok false st t = true.
-Proof.
-  induction t as [n|lit| |k c IH|e IHe sp IHsp opt]; simpl; auto.
-  - intros H. rewrite H. apply orb_true_r.
-  - rewrite !andb_true_iff. intros [H1 H2]. auto.
-Qed.
-
-Lemma wf_aliases_weaken s : wf_aliases true s = true -> wf_aliases false s = true.
-Proof.
-  unfold wf_aliases. apply forallb_impl. intros d _. destruct d; simpl; auto.
-  apply forallb_impl. intros x _. apply forallb_impl. intros t _. apply alias_strict_weak.
 Qed.
 
 Lemma In_macro_decl s n mid body :
@@ -638,6 +678,7 @@ Lemma lookup_macro_decl s n mid body :
   lookup n (n_names (canon s)) = Some (EMacro mid body) -> In (DMacro mid n body) (all_decls s).
 Proof. intros H. apply In_macro_decl. apply lookup_In. exact H. Qed.
 
+(* no macro cycle at all: the GenerateGrammar expansion finds none *)
 Lemma acyclic_all_reachable s : wf_macros_acyclic s = true -> wf_reachable_acyclic s = true.
 Proof.
   unfold wf_macros_acyclic, wf_reachable_acyclic. rewrite !forallb_forall. intros H d Hd.
@@ -652,10 +693,50 @@ Proof.
   destruct d; simpl; auto.
 Qed.
 
-Lemma wf_implies_weak s : well_formed s = true -> well_formed_weak s = true.
+Lemma weak_char s :
+  well_formed_weak s = true <->
+  (wf_lexical_names s = true /\ wf_unique s = true /\ (count_start s <=? 1) = true) /\
+  forallb (decl_check_ok (canon s)) (all_decls s) = true /\
+  forallb (decl_gen_ok (n_names (canon s))) (all_decls s) = true /\
+  n_rules (canon s) && negb (n_start (canon s)) = false.
 Proof.
-  unfold well_formed, well_formed_weak. rewrite !andb_true_iff.
-  intros H. pose proof (wf_aliases_weaken s). pose proof (acyclic_all_reachable s). tauto.
+  rewrite check_split, gen_split. unfold well_formed_weak. rewrite !andb_true_iff, start_char.
+  pose proof (acyclic_all_reachable s) as R.
+  unfold wf_refs, wf_aliases, wf_modes, wf_literals, wf_lists, wf_ranges, wf_macros_acyclic,
+    wf_reachable_acyclic, wf_token_actions, wf_frag_actions in *. tauto.
+Qed.
+
+(* A2' : lox accepts exactly the specifications that satisfy every clause of
+   the property but the shape of parser rule names *)
+Theorem analyze_accepts_iff : forall s, analyze s = [] <-> well_formed_weak s = true.
+Proof.
+  intros s. rewrite weak_char. unfold analyze. destruct (pass_names s) as [st d1] eqn:E. split.
+  - intros H. destruct d1 as [|x d1]; [|discriminate].
+    apply pass_names_char in E. destruct E as [E1 [E2 [E3 E4]]]. subst st.
+    destruct (pass_check (canon s) s) eqn:E5; [|discriminate].
+    apply pass_check_ok in E5. apply pass_gen_ok in H. tauto.
+  - intros [[E1 [E2 E3]] [H1 H2]].
+    assert (E' : pass_names s = (canon s, [])) by (apply pass_names_char; tauto).
+    rewrite E' in E. inversion E; subst.
+    apply pass_check_ok in H1. rewrite H1. apply pass_gen_ok. exact H2.
+Qed.
+
+Lemma well_formed_split s :
+  well_formed s = well_formed_weak s && wf_rule_names s.
+Proof.
+  unfold well_formed, well_formed_weak.
+  destruct (wf_unique s), (wf_lexical_names s), (wf_rule_names s); simpl;
+    rewrite ?andb_true_r, ?andb_false_r; reflexivity.
+Qed.
+
+Lemma wf_implies_weak s : well_formed s = true -> well_formed_weak s = true.
+Proof. rewrite well_formed_split, andb_true_iff. tauto. Qed.
+
+(* accepted = well formed, up to the names of the parser rules *)
+Corollary analyze_rejects_iff_modulo_rule_names : forall s,
+  wf_rule_names s = true -> (analyze s = [] <-> well_formed s = true).
+Proof.
+  intros s H. rewrite analyze_accepts_iff, well_formed_split, H, andb_true_r. tauto.
 Qed.
 
 (* A1 *)
